@@ -556,6 +556,38 @@ func twoBaseDirs(res *Result, proj, sig string) {
 			}
 		}
 	}
+	// templates compiled from strings refer to files by the same names: under the base directories
+	one := pongo2.NewSet("one-base-dir", pongo2.MustNewLocalFileSystemLoader(d1))
+	for _, c := range []struct {
+		set       *pongo2.TemplateSet
+		src, want string
+	}{
+		{set, `[{% include "part.tpl" %}]`, "[part]"}, {set, `[{% include n %}]`, "[part]"}, {set, `{% extends "base.tpl" %}{% block b %}s{% endblock %}`, "<s>"},
+		{set, `{% import "m.tpl" m %}{{ m() }}`, "M"}, {set, `{% ssi "part.tpl" parsed %}|{% ssi "part.tpl" %}`, "part|part"}, {set, `{% include "only1.tpl" %}`, "oneX"},
+		{set, `{% include "both.tpl" %}`, "first"}, {set, `[{% include "main.tpl" %}]`, "[[part]]"}, {set, `{% include "sub/x.tpl" %}`, "X"}, {set, `[{% include "nowhere.tpl" if_exists %}]`, "[]"},
+		{one, `[{% include "part.tpl" %}]`, "[part]"}, {one, `[{% include n %}]`, "[part]"}, {one, `{% extends "base.tpl" %}{% block b %}s{% endblock %}`, "<s>"},
+		{one, `{% import "m.tpl" m %}{{ m() }}`, "M"}, {one, `{% ssi "part.tpl" parsed %}|{% ssi "part.tpl" %}`, "part|part"}, {one, `{% include "only1.tpl" %}`, "oneX"}, {one, `{% include "both.tpl" %}`, "second"},
+	} {
+		res.Cases++
+		got := within(10*time.Second, func() string {
+			tpl, err := c.set.FromString(c.src)
+			if err != nil {
+				return "err " + err.Error()
+			}
+			r := execOnce(tpl, ctx)
+			if r.err != "" || r.pan != "" {
+				return r.String()
+			}
+			return r.out
+		})
+		if got != c.want {
+			which := "the two-directory set"
+			if c.set == one {
+				which = "a set over one LocalFilesystemLoader with a base directory"
+			}
+			oracleFail(res, proj, sig, fmt.Sprintf("FromString(%q) in %s", c.src, which), got, c.want)
+		}
+	}
 	// the cache: same object until CleanCache names it, then the changed file
 	for _, name := range []string{"only1.tpl", "main.tpl"} {
 		res.Cases++
